@@ -6,6 +6,7 @@ import OmbottModel.Drv.Cookies
 import OmbottModel.Drv.ErrorPage
 import OmbottModel.Drv.Router
 import OmbottModel.Drv.RouteUrl
+import OmbottModel.Drv.Multipart
 /-! Dispatch of a protocol line to the area handlers.  `State` holds the few models that are
 driven as state machines across lines (router, multipart feed, header store). -/
 namespace Drv
@@ -31,6 +32,7 @@ def step (st : State) (line : String) : State × String :=
     | "errorpage" => pure? (ErrorPage.handle rest)
     | "router" => pure? (Router.handle rest)
     | "routeurl" => pure? (RouteUrl.handle rest)
+    | "mp" => pure? (Multipart.handle rest)
     | _ => (st, "bad-op")
 
 end Drv
